@@ -11,7 +11,8 @@ Reading guide (clauses of the property → theorems):
 * "parsed into sections, parameters and rules that correspond one-to-one, in order, to what is
   written"  → `tokens_iff_tree`, `parse_spells`, `parse_render`, `parse_render_canonical`,
   `lexer_reads_back`, `walk_keeps_every_item`, `walkFn_faithful`
-* "comments and whitespace anywhere" → `skips_whitespace`, `skips_line_comment`, `skips_concat`
+* "comments and whitespace anywhere" → `skips_whitespace`, `skips_line_comment`,
+  `skips_block_comment`, `skips_concat`
 * "rejected with an error … never crashes" → `parse_total` (model; the Go side is the tie)
 * "applies documented defaults" → `defaults_applied`
 * "rejects unknown sections and keys, missing required ones" → `unknown_section_rejected`,
@@ -146,6 +147,12 @@ theorem skips_line_comment (K : Classes) (hK : K.WF) (body : List Char) (n : Cha
     (hb : body.all (fun c => !isNL c) = true) (hn : isNL n = true) : Skips K ('#' :: (body ++ [n])) :=
   skips_lineComment hK body n hb hn
 
+/-- … and `/* … */` comments (body without `/`) followed by a whitespace character (a block comment
+glued to word characters is a NON_ID for the real lexer too) … -/
+theorem skips_block_comment (K : Classes) (hK : K.WF) (body : List Char) (w : Char) (hb : '/' ∉ body)
+    (hw : K.ws w = true) : Skips K ('/' :: '*' :: (body ++ ['*', '/', w])) :=
+  skips_blockComment hK body w hb hw
+
 /-- … and any concatenation of skipped pieces. -/
 theorem skips_concat (K : Classes) (a b : List Char) (ha : Skips K a) (hb : Skips K b) : Skips K (a ++ b) :=
   skips_append ha hb
@@ -160,7 +167,7 @@ example : Skips stdK ([' '] ++ ('#' :: ([' ', 'x', '{', '"', '\''] ++ ['\n'])) +
 
 /-- **The Walker keeps every item, in order**: one AST item per written item. -/
 theorem walk_keeps_every_item (items : Items) (as : List AItem) (h : walkItems items = some as) :
-    as.length = items.heads.length := walkItems_heads items as h (fun _ _ _ => trivial)
+    as.length = items.heads.length := walkItems_heads items as h
 
 /-- **A function is read faithfully** (name, negation, every parameter's key and raw value, in
 order), and the only thing the Walker refuses is an empty parameter list. -/
